@@ -1498,3 +1498,186 @@ T('k18_handler_reads_name_bound_before_try', ['C18'], (META, "            try:\n
   (META, "            except Exception as e:\n                cur['exc_content'] = repr(e)\n", "            except Exception as e:\n                cur['exc_content'] = repr(e)\n                cur['had_context'] = bool(cur_context)\n"))
 T('k18_handler_repeats_lookup_nested_try', ['C18'], (META, "            except Exception as e:\n                cur['exc_content'] = repr(e)\n",
                                                            "            except Exception as e:\n                cur['exc_content'] = repr(e)\n                try:\n                    context[peri.group_key]['failed'] = True\n                except KeyError:\n                    pass\n"))
+
+
+# ---- the meta application itself lives in another module (meta.py imports it back at its end) ---------------------------------
+_MAPP_HEADER = '''import datetime
+
+from ..application import Application
+from ..sinter import inject
+from ..render import render_json, AshesRenderFactory
+from ..middleware.url import ScriptRootMiddleware
+from ..middleware.context import SimpleContextProcessor
+from ..meta import DEFAULT_PERIPHERALS, DEFAULT_PAGE_TITLE, META_ASSETS_APP, _CUR_PATH
+
+try:
+    unicode
+except NameError:
+    unicode = str
+
+
+'''
+_MAPP = '''class MetaApplication(Application):
+    def __init__(self, peripherals=None, page_title=DEFAULT_PAGE_TITLE,
+                 base_peripherals=DEFAULT_PERIPHERALS):
+        self.page_title = page_title
+        self.peripherals = list(base_peripherals)
+        self.peripherals.extend(peripherals or [])
+
+        self._arf = AshesRenderFactory(_CUR_PATH, keep_whitespace=False)
+        self._main_page_render = self._arf('meta_base.html')
+        routes = [('/', self.get_main, self.render_main_page_html),
+                  ('/clastic_assets/', META_ASSETS_APP),
+                  ('/json/', self.get_main, render_json)]
+        for peri in self.peripherals:
+            routes.extend(peri.get_extra_routes())
+        resources = {'_meta_start_time': datetime.datetime.utcnow(),
+                     'page_title': page_title}
+
+        mwares = [ScriptRootMiddleware(),
+                  SimpleContextProcessor('script_root')]
+        super(MetaApplication, self).__init__(routes, resources, mwares)
+
+    def get_main(self, request, _application, _route, script_root):
+        full_ctx = {'page_title': self.page_title}
+        kwargs = {'request': request,
+                  '_route': _route,
+                  '_application': _application,
+                  '_meta_application': self,
+                  'script_root': script_root}
+        for peri in self.peripherals:
+            try:
+                peri_ctx = inject(peri.get_context, kwargs)
+            except Exception as e:
+                peri_ctx = {'exc_content': repr(e)}
+            full_ctx.setdefault(peri.group_key, {}).update(peri_ctx)
+        return full_ctx
+
+    def render_main_page_html(self, context):
+        context['sections'] = []
+        general_items = context['general'] = []
+
+        for peri in self.peripherals:
+            cur = {'title': peri.title,
+                   'group_key': peri.group_key}
+            try:
+                cur_context = context[peri.group_key]
+                kwargs = {'context': cur_context}
+                cur['content'] = inject(peri.render_main_page_html, kwargs)
+
+                prev_exc = cur_context.get('exc_content')
+                if prev_exc:
+                    cur['exc_content'] = prev_exc
+            except Exception as e:
+                cur['exc_content'] = repr(e)
+            try:
+                cur_general_items = inject(peri.get_general_items, kwargs)
+                cur_general_items = _process_items(cur_general_items)
+            except Exception as e:
+                cur_general_items = []
+            context['sections'].append(cur)
+            general_items.extend(cur_general_items)
+        return self._main_page_render(context)
+
+
+def _process_items(all_items):
+    """ Really, each key/value/key detail/value detail should have a
+    human readable form and a machine readable form. That's a lot of
+    keys, should probably do that later.
+    """
+    ret = []
+    for item in all_items:
+        cur = {}
+        try:
+            key, value = item
+        except:
+            try:
+                key, value = item[0], item[1:]
+            except:
+                value = ''
+                try:
+                    key = repr(item)
+                except:
+                    key = 'unreprable object %s' % object.__repr__(key)
+        if isinstance(key, (bytes, unicode)):
+            cur['key'] = key
+        else:
+            try:
+                cur['key'] = unicode(key[0])
+                cur['key_detail'] = unicode(key[1])
+            except:
+                cur['key'] = unicode(key)
+        if isinstance(value, (bytes, unicode)):
+            cur['value'] = value
+        else:
+            try:
+                cur['value'] = unicode(value[0])
+                cur['value_detail'] = unicode(value[1])
+            except:
+                cur['value'] = str(value)
+        ret.append(cur)
+    return ret
+'''
+_MAPP_OUT = (META, r're:(?s)\nclass MetaApplication\(Application\):.*\Z', '\nfrom .contrib import MetaApplication, _process_items\n')
+T('k18_mv_meta_application', ['C18'], _MAPP_OUT, (NEWMOD, '', _MAPP_HEADER + _MAPP))
+B('k18_mv_meta_application_unprotected_context', ['C18'], 'R18.c', _MAPP_OUT, (NEWMOD, '', _MAPP_HEADER + _MAPP.replace(
+    "            try:\n                peri_ctx = inject(peri.get_context, kwargs)\n            except Exception as e:\n                peri_ctx = {'exc_content': repr(e)}\n",
+    "            peri_ctx = inject(peri.get_context, kwargs)\n")))
+B('k18_mv_meta_application_general_items_unprotected', ['C18'], 'R18.c', _MAPP_OUT, (NEWMOD, '', _MAPP_HEADER + _MAPP.replace(
+    "            try:\n                cur_general_items = inject(peri.get_general_items, kwargs)\n                cur_general_items = _process_items(cur_general_items)\n"
+    "            except Exception as e:\n                cur_general_items = []\n",
+    "            cur_general_items = _process_items(inject(peri.get_general_items, kwargs))\n")))
+B('k18_mv_meta_application_other_main_template', ['C18'], 'R18.d', _MAPP_OUT, (NEWMOD, '', _MAPP_HEADER + _MAPP.replace("self._arf('meta_base.html')", "self._arf('meta_raw.html')")))
+B('k18_mv_meta_application_reads_own_resources', ['C18'], 'R18.a', _MAPP_OUT, (NEWMOD, '', _MAPP_HEADER + _MAPP.replace(
+    "        full_ctx = {'page_title': self.page_title}\n", "        full_ctx = {'page_title': self.page_title, 'res': dict(_application.resources)}\n")))
+
+# a helper of another module called through the module (``from . import contrib as _views`` ... ``_views.helper(..)``)
+_SHOWN = '''def _shown_value(key, val):
+    if 'secret' in key:
+        return '[REDACTED]'
+    text = repr(val)
+    return text if len(text) <= 70 else text[:67] + '...'
+
+
+def _resource_rows(_application):
+    return [{'key': key, 'value': _shown_value(key, val)} for key, val in _application.resources.items()]
+'''
+_IMP_VIEWS = (META, _IMPORT_ANCHOR, _IMPORT_ANCHOR + 'from . import contrib as _views\n')
+T('k18_mv_row_helper_via_module', ['C18'], _IMP_VIEWS, (NEWMOD, '', _SHOWN), (META, GRI, '''def get_resource_info(_application):
+    return [{'key': key, 'value': _views._shown_value(key, val)} for key, val in _application.resources.items()]
+'''))
+T('k18_mv_rows_helper_via_module', ['C18'], _IMP_VIEWS, (NEWMOD, '', _SHOWN), (META, GRI, '''def get_resource_info(_application):
+    return _views._resource_rows(_application)
+'''))
+B('k18_mv_row_helper_via_module_leaks', ['C18'], 'R18.a', _IMP_VIEWS, (NEWMOD, '', _SHOWN.replace("    if 'secret' in key:\n        return '[REDACTED]'\n", "")), (META, GRI, '''def get_resource_info(_application):
+    return [{'key': key, 'value': _views._shown_value(key, val)} for key, val in _application.resources.items()]
+'''))
+B('k18_mv_rows_helper_via_module_leaks', ['C18'], 'R18.a', _IMP_VIEWS, (NEWMOD, '', _SHOWN.replace("'value': _shown_value(key, val)}", "'value': repr(val)}")), (META, GRI, '''def get_resource_info(_application):
+    return _views._resource_rows(_application)
+'''))
+
+# an accumulator that exists before the loop and is only updated in the protected block is not "the result of this iteration"
+T('k18_result_accumulator_before_loop', ['C18'], (META, GMAIN, '''        n_ok = 0
+        for peri in self.peripherals:
+            try:
+                peri_ctx = inject(peri.get_context, kwargs)
+                n_ok += 1
+            except Exception as e:
+                peri_ctx = {'exc_content': repr(e)}
+            full_ctx.setdefault(peri.group_key, {}).update(peri_ctx)
+        full_ctx['page_title'] = '%s (%d sections)' % (self.page_title, n_ok)
+        return full_ctx
+'''))
+T('k18_result_accumulator_read_in_loop', ['C18'], (META, GMAIN, '''        n_ok = 0
+        for peri in self.peripherals:
+            try:
+                peri_ctx = inject(peri.get_context, kwargs)
+                n_ok = n_ok + 1
+            except Exception as e:
+                peri_ctx = {'exc_content': repr(e)}
+            full_ctx.setdefault(peri.group_key, {}).update(peri_ctx, sections_ok=n_ok)
+        return full_ctx
+'''))
+# the 'secret' fragment / the marker as class-level constants: reading them is not reading key material
+T('k18_fragment_in_constants_class', ['C18'], (META, "DEFAULT_PAGE_TITLE = 'Clastic'\n", "DEFAULT_PAGE_TITLE = 'Clastic'\n\n\nclass _Redaction(object):\n    SECRET_FRAGMENT = 'secret'\n    SECRET_MARK = '[REDACTED]'\n"),
+  (META, "        if 'secret' in key:\n            trunc_val = '[REDACTED]'", "        if _Redaction.SECRET_FRAGMENT in key:\n            trunc_val = _Redaction.SECRET_MARK"))
